@@ -79,6 +79,28 @@ def numpy_to_blackbird(A, var_name):
             row_str = "    " + ", ".join(["{}".format(n) for n in row])
             script.append(row_str)
 
+    elif A.dtype == object and any(isinstance(n, sym.Expr) for n in A.flatten()):
+        # array containing free parameters; the element type is taken from the numeric elements
+        kinds = {np.asarray(n).dtype.kind for n in A.flatten() if not isinstance(n, sym.Expr)}
+        if "c" in kinds:
+            var_type = "complex"
+        elif kinds and kinds <= {"i", "u"}:
+            var_type = "int"
+        else:
+            var_type = "float"
+
+        script = ["{} array {}[{}, {}] =".format(var_type, var_name, *A.shape)]
+        for row in A:
+            items = []
+            for n in row:
+                if isinstance(n, sym.Expr):
+                    items.append(_expression_to_blackbird(n))
+                elif isinstance(n, complex):
+                    items.append("{0}{1}{2}j".format(n.real, "+-"[int(np.signbit(n.imag))], abs(n.imag)))
+                else:
+                    items.append("{}".format(n))
+            script.append("    " + ", ".join(items))
+
     else:
         # unknown array type
         raise ValueError("Array {} is of unsupported type {}".format(A, A.dtype))
